@@ -1,10 +1,367 @@
-import TapkeeVerif.Model.Dijkstra
-import TapkeeVerif.Model.DijkstraSpec
-import TapkeeVerif.Model.IsomapPre
-/-! Property C04 — theorems (under construction: the first statement is a sanity fact about the queue). -/
-namespace TapkeeVerif.Dijkstra
+import Mathlib.Algebra.Order.Ring.Rat
+import Mathlib.Algebra.Order.Group.Nat
+import TapkeeVerif.Proofs.DijkstraMain
+import TapkeeVerif.Proofs.IsomapPreAlgebra
+/-!
+# Property C04 — Isomap geodesics are exact shortest paths; Isomap is classical MDS of them
 
-theorem popMin_nil (c : Nat) : popMin (K := Int) c [] = none := by
-  simp [popMin, minEntries, keyMin]
+Subjects: the executable model of `compute_shortest_distances_matrix` (`Model/Dijkstra.lean`: both overloads,
+both queue disciplines, explicit tie-breaking streams, thread schedules in `Model/DijkstraSched.lean`) and of the
+statements of `IsomapImplementation::embed` before the eigensolver (`Model/IsomapPre.lean`, statement list and flag
+index regenerated from the source into `Gen/IsomapSteps.lean`).  The model is tied to the code by
+`checks/c04.py` on every run.
+
+All theorems hold for every number of samples, every `k`, every neighbour-list content satisfying `WF`, every
+non-negative weight function into any linearly ordered additive monoid (`ℚ`, `ℝ`, `ℕ`, …), every tie-breaking
+stream and every schedule.  Two full statements are *false of the code as it stands*; each is kept together with
+a refutation by a concrete witness (reproduced on the real code by the check) and the part that does hold:
+
+* `landmark_row_eq_full_row` for the Fibonacci build   — F-LISOMAP-FLAG  (`f[k]` instead of `f[landmarks[k]]`);
+* `isomap_is_cmds` for asymmetric directed geodesics   — F-ISOMAP-ASYM   (column means subtracted on both sides).
+-/
+namespace TapkeeVerif.Dijkstra
+set_option linter.unusedSectionVars false
+
+variable {K : Type} [AddCommMonoid K] [LinearOrder K] [IsOrderedAddMonoid K]
+
+/-! ## The queue's non-determinism -/
+
+/-- `popMin` always removes exactly one entry and that entry has minimal key, whatever the choice `c`. -/
+theorem popMin_removes_a_minimum {c : Nat} {q q' : List (Nat × K)} {e : Nat × K} (h : popMin c q = some (e, q')) :
+    ∃ l₁ l₂, q = l₁ ++ e :: l₂ ∧ q' = l₁ ++ l₂ ∧ ∀ x ∈ q, e.2 ≤ x.2 := popMin_spec h
+
+/-- Conversely every entry of minimal key is removed by some choice: quantifying over choice streams is
+    quantifying over every tie-breaking behaviour of `std::priority_queue` / `fibonacci_heap`. -/
+theorem choice_covers_every_minimum {l₁ l₂ : List (Nat × K)} {e : Nat × K}
+    (hmin : ∀ x ∈ l₁ ++ e :: l₂, e.2 ≤ x.2) : ∃ c, popMin c (l₁ ++ e :: l₂) = some (e, l₁ ++ l₂) :=
+  popMin_complete hmin
+
+/-! ## Exactness -/
+
+/-- **dijkstra_exact.**  On uniform lists with non-negative weights, for both queue disciplines and *every*
+    tie-breaking stream, the row computed for source `s` exists (no undefined behaviour, fuel not exhausted) and
+    holds, for every `v`, the length of a shortest directed walk from `s` to `v`, and `none` (`dblmax`) exactly
+    when `v` is unreachable. -/
+theorem dijkstra_exact {P : Problem K} {k : Nat} (hwf : WF P k) (hw : ∀ a b, 0 ≤ P.w a b)
+    (disc : Disc) (ch : Nat → Nat) {s : Nat} (hs : s < P.N) :
+    ∃ r, row P disc k ch s s = .ok r ∧ ∀ v (hv : v < P.N), IsGeodesic P k s v r[v] := by
+  obtain ⟨r, hr⟩ := row_ok ch hwf hw (Or.inr rfl) hs hs
+  exact ⟨r, hr, fun v hv => row_geodesic hw (Or.inr rfl) hr v hv⟩
+
+/-- the same for the whole matrix of the first overload -/
+theorem allPairs_is_geodesic_matrix {P : Problem K} {k : Nat} (hwf : WF P k) (hw : ∀ a b, 0 ≤ P.w a b)
+    (hk : P.k? = some k) (disc : Disc) (ch : Nat → Nat → Nat) :
+    ∃ F, allPairs P disc ch = .ok F ∧ F.length = P.N ∧
+      ∀ s v (hs : s < F.length) (hv : v < P.N), IsGeodesic P k s v (F[s])[v] :=
+  allPairs_exact hwf hw hk disc ch
+
+/-- **backends_agree.**  The priority-queue build and the Fibonacci-heap build return the same matrix, whatever
+    ties each of them breaks in whatever way. -/
+theorem backends_agree {P : Problem K} {k : Nat} (hwf : WF P k) (hw : ∀ a b, 0 ≤ P.w a b) (hk : P.k? = some k)
+    (ch ch' : Nat → Nat → Nat) : allPairs P .lazy ch = allPairs P .indexed ch' := by
+  obtain ⟨F, hF, hlen, hg⟩ := allPairs_exact hwf hw hk .lazy ch
+  obtain ⟨F', hF', hlen', hg'⟩ := allPairs_exact hwf hw hk .indexed ch'
+  rw [hF, hF']
+  congr 1
+  apply List.ext_getElem (by rw [hlen, hlen'])
+  intro s h1 h2
+  apply Vector.ext
+  intro v hv
+  exact (hg s v h1 hv).unique (hg' s v h2 hv)
+
+/-- **diag_zero.** -/
+theorem diag_zero {P : Problem K} {k : Nat} (hw : ∀ a b, 0 ≤ P.w a b) {disc : Disc} {ch : Nat → Nat} {s : Nat}
+    (hs : s < P.N) {r : Vector (Option K) P.N} (hr : row P disc k ch s s = .ok r) : r[s] = some 0 :=
+  (row_geodesic hw (Or.inr rfl) hr s hs).diag_zero hw hs
+
+/-- **ge_direct.**  For metric weights no geodesic is below the direct distance. -/
+theorem ge_direct {P : Problem K} {k : Nat} (hw : ∀ a b, 0 ≤ P.w a b) (hm : Metric P) {disc : Disc}
+    {ch : Nat → Nat} {s v : Nat} (hv : v < P.N) {r : Vector (Option K) P.N}
+    (hr : row P disc k ch s s = .ok r) {d : K} (hd : r[v] = some d) : P.w s v ≤ d := by
+  have := row_geodesic hw (Or.inr rfl) hr v hv
+  rw [hd] at this
+  exact this.ge_direct hm
+
+/-- **le_edge.**  A neighbour is never farther than its edge. -/
+theorem le_edge {P : Problem K} {k : Nat} (hw : ∀ a b, 0 ≤ P.w a b) {disc : Disc} {ch : Nat → Nat} {s v : Nat}
+    (he : Edge P k s v) {r : Vector (Option K) P.N} (hr : row P disc k ch s s = .ok r) :
+    ∃ d, r[v]'he.2.1 = some d ∧ d ≤ P.w s v :=
+  (row_geodesic hw (Or.inr rfl) hr v he.2.1).le_edge he
+
+/-- **fuel_suffices** (termination of the relax loop, absence of undefined behaviour): with the fuel
+    `fuelFor N k = (k+1)·N + 2` that the driver passes, `row` never ends in an error — neither `fuel` nor `oob`. -/
+theorem fuel_suffices {P : Problem K} {k : Nat} (hwf : WF P k) (hw : ∀ a b, 0 ≤ P.w a b) (disc : Disc)
+    (ch : Nat → Nat) {src flag : Nat} (hflag : disc = .lazy ∨ flag = src) (hs : src < P.N) (hf : flag < P.N)
+    (e : Err) : row P disc k ch src flag ≠ .error e := by
+  obtain ⟨r, hr⟩ := row_ok ch hwf hw hflag hs hf
+  rw [hr]
+  exact fun h => by cases h
+
+/-! ## Landmark rows -/
+
+/-- **landmark_row_eq_full_row**, priority-queue build (full statement): every landmark row is the corresponding
+    row of the full matrix — the frontier flag is write-only in this build, so its index does not matter. -/
+theorem landmark_row_eq_full_row_lazy {P : Problem K} {k : Nat} (hw : ∀ a b, 0 ≤ P.w a b) (hk : P.k? = some k)
+    {ch ch' : Nat → Nat → Nat} {lm : List Nat} {L F : List (Vector (Option K) P.N)}
+    (hL : landmarkRows P .lazy ch lm = .ok L) (hF : allPairs P .lazy ch' = .ok F)
+    {r : Nat} (hr : r < lm.length) (hlr : lm[r] < P.N) :
+    L[r]? = F[lm[r]]? := by
+  obtain ⟨hlenL, hrowL⟩ := landmarkRows_rows hk hL
+  obtain ⟨hlenF, hrowF⟩ := allPairs_rows hk hF
+  have h1 : r < L.length := by omega
+  have h2 : lm[r] < F.length := by omega
+  rw [List.getElem?_eq_getElem h1, List.getElem?_eq_getElem h2]
+  congr 1
+  apply Vector.ext
+  intro v hv
+  exact (row_geodesic hw (Or.inl rfl) (hrowL r hr h1) v hv).unique
+    (row_geodesic hw (Or.inr rfl) (hrowF _ hlr h2) v hv)
+
+/-- **landmark_row_eq_full_row_partial**, Fibonacci build: a landmark row equals the row of the full matrix
+    (of either build) whenever the frontier flag set before the loop is the landmark vertex's own flag —
+    as the code stands (`f[k]`) only for landmarks stored at their own position; for every landmark once
+    `Gen.Isomap.landmarkFlag r l = l`. -/
+theorem landmark_row_eq_full_row_partial {P : Problem K} {k : Nat} (hw : ∀ a b, 0 ≤ P.w a b) (hk : P.k? = some k)
+    {disc : Disc} {ch ch' : Nat → Nat → Nat} {lm : List Nat} {L F : List (Vector (Option K) P.N)}
+    (hL : landmarkRows P .indexed ch lm = .ok L) (hF : allPairs P disc ch' = .ok F)
+    {r : Nat} (hr : r < lm.length) (hlr : lm[r] < P.N) (hflag : Gen.Isomap.landmarkFlag r lm[r] = lm[r]) :
+    L[r]? = F[lm[r]]? := by
+  obtain ⟨hlenL, hrowL⟩ := landmarkRows_rows hk hL
+  obtain ⟨hlenF, hrowF⟩ := allPairs_rows hk hF
+  have h1 : r < L.length := by omega
+  have h2 : lm[r] < F.length := by omega
+  rw [List.getElem?_eq_getElem h1, List.getElem?_eq_getElem h2]
+  congr 1
+  apply Vector.ext
+  intro v hv
+  exact (row_geodesic hw (Or.inr hflag) (hrowL r hr h1) v hv).unique
+    (row_geodesic hw (Or.inr rfl) (hrowF _ hlr h2) v hv)
+
+/-- the witness of F-LISOMAP-FLAG: three samples, one neighbour each (`1 → 0 → 2 → 2`), unit weights,
+    the single landmark `1` stored at position `0` -/
+def flagWitness : Problem Nat := { N := 3, nbrs := #[#[2], #[0], #[2]], w := fun _ _ => 1 }
+
+example : WF flagWitness 1 := by
+  intro u hu i hi
+  have hi0 : i = 0 := by omega
+  subst hi0
+  have : u = 0 ∨ u = 1 ∨ u = 2 := by
+    have : u < 3 := hu
+    omega
+  rcases this with rfl | rfl | rfl <;> exact ⟨_, rfl, by decide⟩
+
+/-- **landmark_row_eq_full_row_refuted** (F-LISOMAP-FLAG).  The full statement
+    "every landmark row of the Fibonacci build equals the corresponding row of the full matrix" is false of the
+    code as it stands: on `flagWitness` with landmarks `[1]` the landmark row is `[1, 0, dblmax]` while row 1 of the
+    full matrix is `[1, 0, 2]` (vertex 0 carries the frontier flag without being in the heap, its relaxation
+    calls `decrease_key` on an absent node, it is never extracted and its edge `0 → 2` is never relaxed). -/
+theorem landmark_row_eq_full_row_refuted :
+    ¬ ∀ (P : Problem Nat) (k : Nat) (lm : List Nat) (ch ch' : Nat → Nat → Nat)
+        (L F : List (Vector (Option Nat) P.N)), WF P k → P.k? = some k → (∀ l ∈ lm, l < P.N) → lm.length ≤ P.N →
+        landmarkRows P .indexed ch lm = .ok L → allPairs P .indexed ch' = .ok F →
+        ∀ r (hr : r < lm.length), L[r]? = F[lm[r]]? := by
+  intro h
+  have hL : landmarkRows flagWitness .indexed (fun _ _ => 0) [1] = .ok [#v[some 1, some 0, none]] := by decide
+  have hF : allPairs flagWitness .indexed (fun _ _ => 0) =
+      .ok [#v[some 0, none, some 1], #v[some 1, some 0, some 2], #v[none, none, some 0]] := by decide
+  have hwf : WF flagWitness 1 := by
+    intro u hu i hi
+    have hi0 : i = 0 := by omega
+    subst hi0
+    have : u = 0 ∨ u = 1 ∨ u = 2 := by
+      have : u < 3 := hu
+      omega
+    rcases this with rfl | rfl | rfl <;> exact ⟨_, rfl, by decide⟩
+  have := h flagWitness 1 [1] (fun _ _ => 0) (fun _ _ => 0) _ _ hwf rfl (by decide) (by decide) hL hF 0 (by decide)
+  revert this
+  decide
+
+/-- non-vacuity of the hypotheses used above: `flagWitness` has uniform lists and non-negative weights, and the
+    discrete metric on it is a `Metric` -/
+example : WF flagWitness 1 ∧ (∀ a b, 0 ≤ flagWitness.w a b) ∧ flagWitness.k? = some 1 := by
+  refine ⟨?_, fun _ _ => Nat.zero_le _, rfl⟩
+  intro u hu i hi
+  have hi0 : i = 0 := by omega
+  subst hi0
+  have : u = 0 ∨ u = 1 ∨ u = 2 := by
+    have : u < 3 := hu
+    omega
+  rcases this with rfl | rfl | rfl <;> exact ⟨_, rfl, by decide⟩
+
+example : Metric ({ flagWitness with w := fun i j => if i = j then 0 else 1 } : Problem Nat) := by
+  refine ⟨fun i => by simp, ?_⟩
+  intro i j l
+  simp only
+  by_cases h1 : i = l <;> by_cases h2 : i = j <;> by_cases h3 : j = l <;> simp_all
+
+/-- the exactness theorems are not vacuous on it either: the model returns the geodesic matrix -/
+example : allPairs flagWitness .lazy (fun _ _ => 0) =
+    .ok [#v[some 0, none, some 1], #v[some 1, some 0, some 2], #v[none, none, some 0]] := by decide
+
+/-! ## Threads -/
+
+/-- **rows_independent.**  Let every loop index `r < R` of the `omp for` loop succeed sequentially with result
+    `res r` (`row` depends on `(P, k, r)` and the tie-breaking stream only).  Then *every* schedule — any number of
+    threads, any assignment of loop indices to threads, any global order of the iterations, arbitrary initial
+    contents of the result matrix and of every thread's `f`/`s` arrays — that executes each loop index exactly once
+    ends with row `r` of the shared matrix equal to `res r`: the write set of iteration `r` is row `r`, and nothing
+    an iteration reads survives from another iteration. -/
+theorem rows_independent {K : Type} [LinearOrder K] [Add K] [Zero K]
+    (P : Problem K) (disc : Disc) (k : Nat) (ch : Nat → Nat → Nat) (srcOf flagOf : Nat → Nat)
+    (res : Nat → Vector (Option K) P.N) (R : Nat)
+    (hres : ∀ r, r < R → row P disc k (ch r) (srcOf r) (flagOf r) = .ok (res r))
+    (sched : List (Nat × Nat)) (W₀ : World K P.N)
+    (hthreads : ∀ e ∈ sched, e.1 < W₀.scr.length) (honce : (sched.map Prod.snd).Perm (List.range R))
+    (hrows : W₀.rows.length = R) (hheaps : ∀ scr ∈ W₀.scr, scr.heap = []) :
+    ∃ W, runSchedule P disc k ch srcOf flagOf sched W₀ = .ok W ∧ W.rows = (List.range R).map res := by
+  have hmem : ∀ e ∈ sched, e.2 < R := by
+    intro e he
+    have : e.2 ∈ sched.map Prod.snd := List.mem_map_of_mem (f := Prod.snd) he
+    exact List.mem_range.mp (honce.mem_iff.mp this)
+  obtain ⟨W, hrun, hlen, hdone, _⟩ := runSchedule_rows P disc k ch srcOf flagOf res sched W₀
+    (fun e he => ⟨hthreads e he, by rw [hrows]; exact hmem e he⟩)
+    (fun e he => hres e.2 (hmem e he))
+    (honce.nodup_iff.mpr List.nodup_range)
+    hheaps
+  refine ⟨W, hrun, ?_⟩
+  apply List.ext_getElem?
+  intro r
+  by_cases hr : r < R
+  · rw [hdone r (honce.mem_iff.mpr (List.mem_range.mpr hr))]
+    simp [hr]
+  · rw [List.getElem?_eq_none (by omega), List.getElem?_eq_none (by simp; omega)]
+
+/-- `rows_independent` for the first overload: every schedule computes the matrix `allPairs` returns. -/
+theorem allPairs_schedule_independent {K : Type} [LinearOrder K] [Add K] [Zero K]
+    {P : Problem K} {k : Nat} {disc : Disc} {ch : Nat → Nat → Nat} (hk : P.k? = some k)
+    {F : List (Vector (Option K) P.N)} (hF : allPairs P disc ch = .ok F)
+    (sched : List (Nat × Nat)) (W₀ : World K P.N)
+    (hthreads : ∀ e ∈ sched, e.1 < W₀.scr.length) (honce : (sched.map Prod.snd).Perm (List.range P.N))
+    (hrows : W₀.rows.length = P.N) (hheaps : ∀ scr ∈ W₀.scr, scr.heap = []) :
+    ∃ W, runSchedule P disc k ch id id sched W₀ = .ok W ∧ W.rows = F := by
+  unfold allPairs at hF
+  simp only [hk] at hF
+  obtain ⟨hlen, hget⟩ := mapM_except_getElem hF
+  simp only [List.length_range] at hlen
+  let res : Nat → Vector (Option K) P.N := fun s => if hs : s < F.length then F[s] else Vector.replicate P.N none
+  have hres : ∀ r, r < P.N → row P disc k (ch r) (id r) (id r) = .ok (res r) := by
+    intro r hr
+    have hr' : r < F.length := by omega
+    have := hget r (by simpa using hr) hr'
+    simp only [res, hr', dite_true, id]
+    simpa using this
+  obtain ⟨W, hrun, hW⟩ := rows_independent P disc k ch id id res P.N hres sched W₀ hthreads honce hrows hheaps
+  refine ⟨W, hrun, ?_⟩
+  rw [hW]
+  apply List.ext_getElem (by simp [hlen])
+  intro i h1 h2
+  simp only [List.getElem_map, List.getElem_range, res, h2, dite_true]
+
+/-! ## The oracle run on the implementation's output -/
+
+/-- **isShortestPathMatrix_sound.**  The decidable oracle (Floyd–Warshall over `Option K` plus a certificate check
+    of its result) accepts only the matrix of geodesic distances — for any weights, no sign assumption. -/
+theorem isShortestPathMatrix_sound {P : Problem K} {k : Nat} {D : Tab K} (h : isShortestPathMatrix P k D = true)
+    {s v : Nat} (hs : s < P.N) (hv : v < P.N) : IsGeodesic P k s v (D.get s v) := oracle_sound h hs hv
+
+/-- hence an accepted table coincides with what the model computes -/
+theorem oracle_agrees_with_model {P : Problem K} {k : Nat} (hw : ∀ a b, 0 ≤ P.w a b) {D : Tab K}
+    (h : isShortestPathMatrix P k D = true) {disc : Disc} {ch : Nat → Nat} {s v : Nat} (hs : s < P.N) (hv : v < P.N)
+    {r : Vector (Option K) P.N} (hr : row P disc k ch s s = .ok r) : D.get s v = r[v] :=
+  (oracle_sound h hs hv).unique (row_geodesic hw (Or.inr rfl) hr v hv)
 
 end TapkeeVerif.Dijkstra
+
+/-! ## Isomap is classical MDS of the geodesics -/
+namespace TapkeeVerif.IsomapPre
+open TapkeeVerif
+set_option linter.unusedSectionVars false
+
+variable {K : Type} [Field K] [CharZero K] {n : Nat}
+
+/-- **center_eq_JAJ.**  `centerMatrix` (utils/matrix.hpp) is double centring `J·A·J` — for symmetric `A`. -/
+theorem center_eq_JAJ (hn : (n : K) ≠ 0) {A : Mat n n K} (hA : ∀ i j, A i j = A j i) :
+    centerMatrixIso A = Mat.mul (Mat.mul centering A) centering := by
+  funext i j
+  have h1 := center_scale_eq_cmds hn hA i j
+  unfold cmds at h1
+  have h2 : (((-1 : Int) : K) / ((2 : Nat) : K)) = -(((1 : Nat) : K) / ((2 : Nat) : K)) := by
+    push_cast
+    ring
+  rw [h2, mul_comm] at h1
+  have h3 : -(((1 : Nat) : K) / ((2 : Nat) : K)) ≠ 0 := by
+    push_cast
+    norm_num
+  exact mul_left_cancel₀ h3 h1
+
+/-- the generated statement list is the one the theorems below are about (fails to compile when
+    `IsomapImplementation::embed` changes: the statements must then be re-proved for the new list) -/
+theorem isomapSteps_as_written :
+    Gen.Isomap.isomapSteps = [.square, .center, .scale (-1) 2] ∧ Gen.Isomap.denseSolverSymmetrises = true :=
+  ⟨rfl, rfl⟩
+
+/-
+**isomap_is_cmds** (full statement, FALSE of the code as it stands — F-ISOMAP-ASYM):
+
+    theorem isomap_is_cmds (hn : (n : K) ≠ 0) (D : Mat n n K) :
+        denseSolverInput (isomapPre D) = cmds (avgSquares D)
+
+i.e. the matrix the dense eigensolver decomposes is `−½ J S J` with `S` the squared geodesics, the two directions
+averaged.  It holds when the geodesic matrix is symmetric (`isomap_is_cmds_partial`), fails otherwise
+(`isomap_is_cmds_refuted`), and holds unconditionally for the statement list with the proposed one-line
+symmetrisation (`isomap_is_cmds_with_symmetrise`).
+-/
+
+/-- **isomap_is_cmds_partial**: for symmetric geodesics. -/
+theorem isomap_is_cmds_partial (hn : (n : K) ≠ 0) {D : Mat n n K} (hD : ∀ i j, D i j = D j i) :
+    denseSolverInput (isomapPre D) = cmds (avgSquares D) := by
+  unfold denseSolverInput isomapPre
+  rw [isomapSteps_as_written.1, isomapSteps_as_written.2]
+  simp only [if_true]
+  exact steps_current_symm hn hD
+
+/-- with the two directions averaged before centring (fixes/F-ISOMAP-ASYM.diff) the statement holds for every
+    geodesic matrix, and the matrix handed to the solver is already symmetric -/
+theorem isomap_is_cmds_with_symmetrise (hn : (n : K) ≠ 0) (D : Mat n n K) :
+    [Gen.Isomap.Step.square, .symmetrise, .center, .scale (-1) 2].foldl applyStep D = cmds (avgSquares D) :=
+  steps_fixed hn D
+
+/-- geodesic matrix of the 4 samples with symmetric metric distances
+    `[[0,1,2,3],[1,0,3,4],[2,3,0,2],[3,4,2,0]]` and their (unambiguous) 2-nearest-neighbour lists
+    `[[1,2],[0,2],[0,3],[2,0]]`: `3 → 0` is an edge, `0 → 3` is not, so `d(0,3) = 4 ≠ 3 = d(3,0)` -/
+def asymD : Mat 4 4 ℚ := fun i j =>
+  (([[0, 1, 2, 4], [1, 0, 3, 5], [2, 3, 0, 2], [3, 4, 2, 0]] : List (List ℚ)).getD i.1 []).getD j.1 0
+
+/-- the graph of `asymD` -/
+def asymP : Dijkstra.Problem ℚ :=
+  { N := 4, nbrs := #[#[1, 2], #[0, 2], #[0, 3], #[2, 0]],
+    w := fun i j => (([[0, 1, 2, 3], [1, 0, 3, 4], [2, 3, 0, 2], [3, 4, 2, 0]] : List (List ℚ)).getD i []).getD j 0 }
+
+/-- `asymD` is what the model computes on `asymP` -/
+theorem asymD_is_geodesic_matrix :
+    Dijkstra.allPairs asymP .lazy (fun _ _ => 0) =
+      .ok [#v[some 0, some 1, some 2, some 4], #v[some 1, some 0, some 3, some 5],
+           #v[some 2, some 3, some 0, some 2], #v[some 3, some 4, some 2, some 0]] := by
+  decide +kernel
+
+/-- **isomap_is_cmds_refuted** (F-ISOMAP-ASYM): on `asymD` the decomposed matrix has `5/16` at `(0,0)`, classical MDS
+    of the averaged squared geodesics has `19/16`. -/
+theorem isomap_is_cmds_refuted :
+    ¬ ∀ (n : Nat) (D : Mat n n ℚ), denseSolverInput (isomapPre D) = cmds (avgSquares D) := by
+  intro h
+  have h00 := congrFun (congrFun (h 4 asymD) 0) 0
+  have h1 : denseSolverInput (isomapPre asymD) 0 0 = 5 / 16 := by
+    simp only [denseSolverInput, isomapPre, isomapSteps_as_written.1, isomapSteps_as_written.2, List.foldl, applyStep,
+      if_true, denseSym, centerMatrixIso_apply, colMeans_apply, grandMean_eq, squareEntries, Fin.sum_univ_four]
+    simp [asymD]
+    norm_num
+  have h2 : cmds (avgSquares asymD) 0 0 = 19 / 16 := by
+    rw [cmds_apply (by norm_num)]
+    simp only [rowMean, colMeans_apply, grandMean_eq, avgSquares, Fin.sum_univ_four]
+    simp [asymD]
+    norm_num
+  rw [h1, h2] at h00
+  have hne : (5 : ℚ) / 16 ≠ 19 / 16 := by decide +kernel
+  exact hne h00
+
+end TapkeeVerif.IsomapPre
